@@ -64,29 +64,45 @@ static uint32_t m0(Field f, uint64_t gid, int round) {   // the master's value a
 static std::atomic<uint32_t>& fld(NodeData& d, Field f) { return f == F_MIN ? d.vmin : f == F_ADD ? d.vadd : d.vmax; }
 static galois::DynamicBitSet& bits(Field f) { return f == F_MIN ? bitset_vmin : f == F_ADD ? bitset_vadd : bitset_vmax; }
 
-template <WriteLocation W, ReadLocation R, bool UseBitset> static void doSync(Field f) {
+template <WriteLocation W, ReadLocation R, bool UseBitset, bool Async> static void doSync(Field f) {
   if (UseBitset) {
-    if (f == F_MIN) S->sync<W, R, Reduce_min_vmin, Bitset_vmin>("verif");
-    else if (f == F_ADD) S->sync<W, R, Reduce_add_vadd, Bitset_vadd>("verif");
-    else S->sync<W, R, Reduce_max_vmax, Bitset_vmax>("verif");
+    if (f == F_MIN) S->sync<W, R, Reduce_min_vmin, Bitset_vmin, Async>("verif");
+    else if (f == F_ADD) S->sync<W, R, Reduce_add_vadd, Bitset_vadd, false>("verif");
+    else S->sync<W, R, Reduce_max_vmax, Bitset_vmax, Async>("verif");
   } else {
-    if (f == F_MIN) S->sync<W, R, Reduce_min_vmin>("verif");
-    else if (f == F_ADD) S->sync<W, R, Reduce_add_vadd>("verif");
-    else S->sync<W, R, Reduce_max_vmax>("verif");
+    if (f == F_MIN) S->sync<W, R, Reduce_min_vmin, galois::InvalidBitsetFnTy, Async>("verif");
+    else if (f == F_ADD) S->sync<W, R, Reduce_add_vadd, galois::InvalidBitsetFnTy, false>("verif");
+    else S->sync<W, R, Reduce_max_vmax, galois::InvalidBitsetFnTy, Async>("verif");
   }
 }
-template <bool UseBitset> static void dispatch(int w, int r, Field f) {
+template <bool UseBitset, bool Async> static void dispatch(int w, int r, Field f) {
   switch (w * 3 + r) {
-  case 0: doSync<writeSource, readSource, UseBitset>(f); break;
-  case 1: doSync<writeSource, readDestination, UseBitset>(f); break;
-  case 2: doSync<writeSource, readAny, UseBitset>(f); break;
-  case 3: doSync<writeDestination, readSource, UseBitset>(f); break;
-  case 4: doSync<writeDestination, readDestination, UseBitset>(f); break;
-  case 5: doSync<writeDestination, readAny, UseBitset>(f); break;
-  case 6: doSync<writeAny, readSource, UseBitset>(f); break;
-  case 7: doSync<writeAny, readDestination, UseBitset>(f); break;
-  default: doSync<writeAny, readAny, UseBitset>(f); break;
+  case 0: doSync<writeSource, readSource, UseBitset, Async>(f); break;
+  case 1: doSync<writeSource, readDestination, UseBitset, Async>(f); break;
+  case 2: doSync<writeSource, readAny, UseBitset, Async>(f); break;
+  case 3: doSync<writeDestination, readSource, UseBitset, Async>(f); break;
+  case 4: doSync<writeDestination, readDestination, UseBitset, Async>(f); break;
+  case 5: doSync<writeDestination, readAny, UseBitset, Async>(f); break;
+  case 6: doSync<writeAny, readSource, UseBitset, Async>(f); break;
+  case 7: doSync<writeAny, readDestination, UseBitset, Async>(f); break;
+  default: doSync<writeAny, readAny, UseBitset, Async>(f); break;
   }
+}
+// bulk-asynchronous execution of one sync (what the Async execution model of the applications does): syncs that do not wait
+// for their messages are repeated until the distributed termination detector finds every host idle and nothing in flight
+template <bool UseBitset> static long asyncLoop(int w, int r, Field f, unsigned localWrites) {
+  galois::DGTerminator<unsigned int> dga;
+  long iters = 0;
+  bool first = true;
+  do {
+    dga.reset();
+    if (first) dga += localWrites;
+    first = false;
+    dispatch<UseBitset, true>(w, r, f);
+    ++iters;
+    if (getenv("DSYNC_DEBUG") && iters % 20000 == 0) { auto& net = galois::runtime::getSystemNetworkInterface(); fprintf(stderr, "[%u] async iters=%ld sends=%d recvs=%d local=%u\n", me, iters, (int)net.anyPendingSends(), (int)net.anyPendingReceives(), (unsigned)dga.read_local()); }
+  } while (dga.reduce(S->get_run_identifier()) && iters < 100000);
+  return iters;
 }
 
 int main(int argc, char** argv) {
@@ -171,9 +187,15 @@ int main(int argc, char** argv) {
     // sync, refreshed totals included, and an application has to consume them first)
     bool twoStep = f == F_ADD && pr.below(4) != 0 && useBitset && mode != onlyData;
     if (twoStep && pr.below(3) != 0) { mode = noData; enforcedDataMode = mode; }   // let get_data_mode() choose
+    // min / max fields (monotone reductions) also under bulk-asynchronous execution; only with the default (non-enforced) or
+    // any enforced encoding; never for add fields
+    // (only with an update bitset and not with the enforced dense encoding: those send everything again in every sync, so the
+    // execution never becomes quiescent -- recorded as finding D17 for the applications' --metadata=none --exec=Async)
+    bool asyncRound = f != F_ADD && pr.below(3) == 0 && useBitset && mode != onlyData;
     std::vector<uint32_t> mine(G->size(), 0);   // this host's own contribution of the first step, per proxy
     vh::Rng wr(seed * 104729 + round * 64 + me);
     for (int step = 0; step < (twoStep ? 2 : 1); ++step) {
+      unsigned nwrites = 0;
       std::vector<uint32_t> pre(G->size());
       {
         VVL pv;
@@ -198,15 +220,18 @@ int main(int argc, char** argv) {
         if (f == F_MIN) galois::atomicMin(x, c); else if (f == F_ADD) galois::atomicAdd(x, c); else galois::atomicMax(x, c);
         bits(f).set(l);
         if (step == 0) mine[l] = c;
+        ++nwrites;
         out->line(Rec().str("ev", "write").i("h", me).i("round", round).i("gid", G->getGID(l)).i("c", c).i("step", step));
       }
-      if (useBitset) dispatch<true>(w, r, f); else dispatch<false>(w, r, f);
+      long iters = 1;
+      if (asyncRound) iters = useBitset ? asyncLoop<true>(w, r, f, nwrites) : asyncLoop<false>(w, r, f, nwrites);
+      else if (useBitset) dispatch<true, false>(w, r, f); else dispatch<false, false>(w, r, f);
       VVL px;
       for (uint32_t l = 0; l < G->size(); ++l) {
         uint64_t gid = G->getGID(l);
         px.push_back({(long long)gid, G->isOwned(gid) ? 1 : 0, hasOut[l], hasIn[l], (long long)pre[l], (long long)fld(G->getData(l), f).load()});
       }
-      out->line(Rec().str("ev", "proxies").i("h", me).i("round", round).i("step", step).raw("px", vh::jarr2(px)));
+      out->line(Rec().str("ev", "proxies").i("h", me).i("round", round).i("step", step).i("async", asyncRound ? 1 : 0).i("iters", iters).raw("px", vh::jarr2(px)));
     }
     out->flush();
     galois::runtime::getHostBarrier().wait();
